@@ -82,7 +82,7 @@ CHECKS = {
         "assumptions": ["R-sem is the specification"],
     },
     "C08": {
-        "runs": [_r("TestC08", 3000, 20000, race=True, qt=1500, tt=6000), _r("TestC08Cycles", 1500, 20000, qt=600, tt=3000)],
+        "runs": [_r("TestC08", 3000, 20000, race=True, qt=1500, tt=6000), _r("TestC08Cycles", 6000, 60000, qs=8, qt=600, tt=3000)],
         "rule": "rapid draws a world (generator G), a configuration (query cache on; engine default or weighted; breadth limit 1/2/10) and a history of "
                 "4-14 operations against the unchanged store on a fresh server: Check (sometimes a burst of 6 concurrent copies), BatchCheck, ListObjects, "
                 "with contexts, contextual tuples and requests derived from earlier ones (same request again, same subject/other object, same object/other "
